@@ -57,10 +57,13 @@ func c14GateRule(c *Ctx, r *Report, pkg string) {
 	var roots []*ssa.Function
 	gates := map[string]gate{}
 	nDeliver := 0
-	for _, root := range withClosures(loop) {
-		if root == loop {
-			continue
-		}
+	// the goroutines the loop function starts: function literals or functions/methods of the package
+	// that are started there and called nowhere else (ip_j6.go), with the literals nested in them
+	var started []*ssa.Function
+	for _, g := range c.j6GoRoots(loop) {
+		started = append(started, withClosures(g)...)
+	}
+	for _, root := range started {
 		tree := c.syncTree([]*ssa.Function{root}, pkg)
 		delivers := false
 		for _, g := range tree {
@@ -85,7 +88,12 @@ func c14GateRule(c *Ctx, r *Report, pkg string) {
 					}
 					delivers = true
 					nDeliver++
-					for _, cd := range condsAt(b) {
+					// conditions in force at the delivery, and at the call sites of the helper it lives in
+					conds := condsAt(b)
+					if g != root {
+						conds = c.j6CondsUp(b, 0)
+					}
+					for _, cd := range conds {
 						v, open := cd.V, 1
 						if !cd.Truth {
 							open = 0
